@@ -176,6 +176,31 @@ fn edit<S: Sc>(len0: usize, ops: Vec<Op>) {
     }
 }
 
+/// complex coefficients: purge_leading removes a leading coefficient only when BOTH its parts are negligible
+fn purge_leading_complex<S: Sc>(len: usize) {
+    let cr = inputs::<S>("cr", len, -CB, CB);
+    let ci = inputs::<S>("ci", len, -CB, CB);
+    let c: Vec<Complex<S>> = (0..len).map(|k| Complex::new(cr[k], ci[k])).collect();
+    let rev: Vec<Complex<S>> = c.iter().rev().cloned().collect();
+    let mut p = Polynomial::from_slice(&rev);
+    let tolv = S::input("ztol", 1e-14, 1e-6);
+    let _ = p.set_tolerance(tolv);
+    p.purge_leading();
+    let after = p.order();
+    S::reach("purge-leading-complex");
+    S::prove("complex/purge_leading-never-raises-order", S::b_const(after <= len - 1));
+    for k in (after + 1)..len {
+        S::prove("complex/purge_leading-removes-only-negligible-real-and-imaginary-parts", S::b_and(S::b_le(cr[k].sabs(), tolv), S::b_le(ci[k].sabs(), tolv)));
+    }
+    if after > 0 {
+        S::prove("complex/purge_leading-stops-at-non-negligible", S::b_or(S::b_gt(cr[after].sabs(), tolv), S::b_gt(ci[after].sabs(), tolv)));
+    }
+    for k in 0..=after {
+        let g = p.get_coefficient(k);
+        S::prove("complex/purge_leading-keeps-the-other-coefficients", S::b_and(S::b_eq(g.re, cr[k]), S::b_eq(g.im, ci[k])));
+    }
+}
+
 fn op_sequences(max_len: usize, powers: &[usize]) -> Vec<Vec<Op>> {
     let mut alphabet: Vec<Op> = vec![Op::PurgeLeading];
     for &p in powers {
@@ -212,6 +237,9 @@ pub fn run(pr: &mut PropRun, t: &Tier) {
     }
     for deg in 1..=3usize {
         run_h!(pr, t.cfg(&format!("C13:calculus-complex(deg={})", deg)), calculus_complex, deg);
+    }
+    for len in [1usize, 2, 4] {
+        run_h!(pr, t.cfg(&format!("C13:purge_leading-complex(len={})", len)), purge_leading_complex, len);
     }
     // editing: exhaustive sequences over a small alphabet, symbolic values
     let (len, powers): (usize, Vec<usize>) = if t.thorough { (3, vec![0, 1, 2, 3, 4, 6]) } else { (2, vec![0, 2, 3, 4, 6]) };
